@@ -73,6 +73,10 @@ func (p *Core) Exec(w *sim.World, op sim.Op) {
 		p.execWriteAck(op)
 	case "mut":
 		p.execMut(op)
+	case "lhv":
+		p.execLocalVerify(op)
+	case "lhop":
+		p.execLocalOp(op)
 	default:
 		w.Noop()
 	}
@@ -214,7 +218,11 @@ func (p *Core) execRelay(op sim.Op) {
 	}
 	on.Submit(&sim.TxSpec{Msgs: msgs, Signer: signer, Tag: op.T, Label: op.K})
 	if op.X&flagDefer == 0 {
-		p.tick(time.Second)
+		dt := time.Second
+		if op.N > 0 {
+			dt = time.Duration(op.N) // explicit block distance (delay-period boundary probes)
+		}
+		p.tick(dt)
 		p.block(on.Idx)
 	}
 }
